@@ -85,7 +85,7 @@ Section Sim.
       MINMATCH, LASTLITERALS, MFLIMIT, MATCH_SAFEGUARD_DISTANCE,
       FASTLOOP_SAFE_DISTANCE, WILDCOPYLENGTH, ML_MASK, RUN_MASK in *;
     cbn [ip op dm ok] in *.
-  Ltac fin := unf; lia.
+  Ltac fin := unfold byte in *; unf; lia.
   (* decide the [if] at the head of the step under analysis *)
   Ltac dec_true c := let E := fresh "E" in assert (E : c = true) by fin; rewrite E; clear E; cbv beta iota.
   Ltac dec_false c := let E := fresh "E" in assert (E : c = false) by fin; rewrite E; clear E; cbv beta iota.
@@ -412,14 +412,13 @@ Section Sim.
     cbn [ip op dm].
     rewrite (readLE16_src _ _ _ _ Hs2).
     eapply is_cont_mono.
-    - apply (after_lits_sim (ip s + Z.of_nat (length lits)) (op s + Z.of_nat (length lits))) with (r4 := r4) (ml := ml) (rout0 := rev lits ++ rout) (rout1 := rout1); unfold byte in *; try assumption; try lia.
+    - apply (after_lits_sim (ip s + Z.of_nat (length lits)) (op s + Z.of_nat (length lits))) with (r3 := r3) (r4 := r4) (ml := ml) (rout0 := rev lits ++ rout) (rout1 := rout1); unfold byte in *; try assumption; try lia; try (destruct partial; lia).
       + pose proof (Z.mod_pos_bound tok 16). lia.
       + cbn [length]. lia.
       + apply lits_out_v with (m := dm s); try assumption.
         * apply wild8_in_same_below.
         * apply wild8_in_lits. exact Hsl.
       + rewrite app_length, rev_length. lia.
-      + destruct partial; lia.
     - cbn beta. intros s' (H1 & H2 & H3 & H4 & H5). repeat split; try assumption; lia.
   Qed.
 
@@ -464,7 +463,9 @@ Section Sim.
     destruct (nibbles tok Htok) as [Hn1 Hn2].
     cbn [length] in Hie.
     destruct (read_len_suffix _ _ _ _ _ Hn1 Hrl1 Hbr Hsr) as (Hl1 & Hll & Hnoext & Hs1 & Hb1).
-    destruct (take_spec _ _ _ _ Htk) as [Er1 Hlits].
+    unfold byte in *.
+    set (p1 := ip s + 1 + (Z.of_nat (length r) - Z.of_nat (length r1))) in *.
+    destruct (take_spec _ _ _ _ Htk) as [Er1 Hlits]. unfold byte in *.
     assert (Ell : ll = Z.of_nat (length lits)) by lia.
     rewrite Er1 in Hs1, Hb1.
     assert (Hlr1 : length r1 = (length lits + S (S (length r3)))%nat).
@@ -475,7 +476,6 @@ Section Sim.
     unfold apply_seq in Happ. cbn [s_lits s_off s_mlen] in Happ.
     destruct (off_ok (o1 + 256 * o2) && (4 <=? ml + 4)) eqn:Eok; [|discriminate].
     assert (Hoff : 1 <= o1 + 256 * o2) by (unfold off_ok in Eok; lia).
-    set (p1 := ip s + 1 + (Z.of_nat (length r) - Z.of_nat (length r1))) in *.
     destruct (src_at_app _ _ _ _ Hs1) as [Hsl Hs2].
     destruct (src_at_cons _ _ _ _ Hs2) as [_ Hs3]. destruct (src_at_cons _ _ _ _ Hs3) as [_ Hs4].
     destruct (read_len_suffix _ _ _ _ _ Hn2 Hrl2 Hb4 Hs4) as (Hl2 & Hml & Hnoext2 & Hs5 & Hb5).
@@ -487,10 +487,11 @@ Section Sim.
     destruct (negb (tok / 16 =? RUN_MASK) && ((ip s + 1 <? shortiend iend) && (op s <=? shortoend oend))) eqn:Esc; cbv beta iota.
     - (* two-stage shortcut: 16 literal bytes copied blindly *)
       assert (Hlt15 : tok / 16 < 15) by fin.
-      destruct (Hnoext Hlt15) as [-> ->].
-      assert (Ep1 : p1 = ip s + 1) by (unfold p1; lia).
-      rewrite Ep1 in *.
-      rewrite Ell in *.
+      destruct (Hnoext Hlt15) as [Ell' Er].
+      assert (Ep1 : p1 = ip s + 1) by (unfold p1; rewrite Er; lia).
+      rewrite Er in Hlr1.
+      clearbody p1. subst p1.
+      replace (tok / 16) with (Z.of_nat (length lits)) by lia.
       rewrite (readLE16_src _ _ _ _ Hs2).
       set (m1 := blit srcm (ip s + 1) (dm s) (op s) 16).
       assert (O1 : out_at (vget m1) (op s + Z.of_nat (length lits)) (rev lits ++ rout)).
@@ -518,31 +519,30 @@ Section Sim.
           eapply lzrec_weaken; [exact R | lia | lia].
       + (* general match path *)
         eapply is_cont_mono.
-        * apply (after_lits_sim (ip s + 1 + Z.of_nat (length lits)) (op s + Z.of_nat (length lits)) m1) with (r4 := r4) (ml := ml) (rout0 := rev lits ++ rout) (rout1 := rout1); unfold byte in *; try assumption; try lia.
+        * apply (after_lits_sim (ip s + 1 + Z.of_nat (length lits)) (op s + Z.of_nat (length lits)) m1) with (r3 := r3) (r4 := r4) (ml := ml) (rout0 := rev lits ++ rout) (rout1 := rout1); unfold byte in *; try assumption; try lia; try (destruct partial; lia).
           -- cbn [length]. lia.
           -- rewrite app_length, rev_length. lia.
-          -- destruct partial; lia.
-        * cbn beta. intros s' (H1 & H2 & H3 & H4 & H5). cbn [length]. repeat split; try assumption; lia.
+        * cbn beta. intros s' (H1 & H2 & H3 & H4 & H5). cbn [length]. unfold byte in *. repeat split; try assumption; lia.
     - destruct (tok / 16 =? RUN_MASK) eqn:E15; cbv beta iota.
       + (* long literal run: extra length bytes *)
         unfold read_len in Hrl1. assert (E15' : (tok / 16 =? 15) = true) by fin. rewrite E15' in Hrl1.
-        destruct (rvl_sim r ll r1 (ip s + 1) (iend - RUN_MASK) true (ok s && rd_src iend (ip s) 1) Hrl1 Hsr) as (_ & _ & kf' & Hr); try fin.
+        destruct (rvl_sim r ll r1 (ip s + 1) (iend - RUN_MASK) true (ok s && rd_src iend (ip s) 1) Hrl1 Hsr) as (_ & _ & kf' & Hr); [fin | fin | fin |].
         rewrite Hr. cbv beta iota. fold p1.
         replace (tok / 16 + (ll - 15)) with (Z.of_nat (length lits)) by fin.
         eapply is_cont_mono.
-        * apply (safe_lit_mid_sim (mkD p1 (op s) (dm s) kf') tok lits o1 o2 r3 ml r4 rout rout1); cbn [ip op dm]; unfold byte in *; try assumption; try lia.
+        * apply (safe_lit_mid_sim (mkD p1 (op s) (dm s) kf') tok lits o1 o2 r3 ml r4 rout rout1); cbn [ip op dm]; unfold byte in *; try assumption; try lia; try (destruct partial; lia).
           -- rewrite app_length. cbn [length]. lia.
-          -- destruct partial; lia.
-        * cbn [ip op dm]. intros s' (H1 & H2 & H3 & H4 & H5). cbn [length]. repeat split; try assumption; lia.
+        * cbn [ip op dm]. intros s' (H1 & H2 & H3 & H4 & H5). cbn [length]. unfold byte in *. repeat split; try assumption; lia.
       + assert (Hlt15 : tok / 16 < 15) by fin.
-        destruct (Hnoext Hlt15) as [-> ->].
-        assert (Ep1 : p1 = ip s + 1) by (unfold p1; lia).
-        rewrite Ep1 in *. rewrite Ell.
+        destruct (Hnoext Hlt15) as [Ell' Er].
+        assert (Ep1 : p1 = ip s + 1) by (unfold p1; rewrite Er; lia).
+        rewrite Er in Hlr1.
+        clearbody p1. subst p1.
+        replace (tok / 16) with (Z.of_nat (length lits)) by lia.
         eapply is_cont_mono.
-        * apply (safe_lit_mid_sim (mkD (ip s + 1) (op s) (dm s) (ok s && rd_src iend (ip s) 1)) tok lits o1 o2 r3 ml r4 rout rout1); cbn [ip op dm]; unfold byte in *; try assumption; try lia.
+        * apply (safe_lit_mid_sim (mkD (ip s + 1) (op s) (dm s) (ok s && rd_src iend (ip s) 1)) tok lits o1 o2 r3 ml r4 rout rout1); cbn [ip op dm]; unfold byte in *; try assumption; try lia; try (destruct partial; lia).
           -- rewrite app_length. cbn [length]. lia.
-          -- destruct partial; lia.
-        * cbn [ip op dm]. intros s' (H1 & H2 & H3 & H4 & H5). cbn [length]. repeat split; try assumption; lia.
+        * cbn [ip op dm]. intros s' (H1 & H2 & H3 & H4 & H5). cbn [length]. unfold byte in *. repeat split; try assumption; lia.
   Qed.
 
 End Sim.
